@@ -168,6 +168,7 @@ StepNode(ev) ==
       hh == IF ~h.healed THEN hh0
             ELSE IF ev.a = "Propose" THEN [hh0 EXCEPT !.probes = @ \cup {<<n, ev.val>>}]
             ELSE IF ev.a = "ReadIndex" THEN [hh0 EXCEPT !.probectx = @ \cup {<<n, ev.val>>}]
+            ELSE IF ev.a = "ProposeCC" THEN [hh0 EXCEPT !.probecc = @ \cup {<<n, ev.val>>}]
             ELSE hh0
   IN
   /\ node' = [node EXCEPT ![n] = post]
